@@ -82,7 +82,11 @@ unsigned long g_eval_str[G_MAXEVAL][4];
    (IS_FRESH(__CPROVER_return_value->_value.p, sizeof(struct Tuple)) && \
     SET_EQ(((struct Tuple *)__CPROVER_return_value->_value.p)->_type._major, V_MAJOR(__CPROVER_return_value)) && \
     SET_EQ(((struct Tuple *)__CPROVER_return_value->_value.p)->_type._minor, V_MINOR(__CPROVER_return_value)) && \
-    SET_EQ(((struct Tuple *)__CPROVER_return_value->_value.p)->_type._level, V_LEVEL(__CPROVER_return_value))))
+    SET_EQ(((struct Tuple *)__CPROVER_return_value->_value.p)->_type._level, V_LEVEL(__CPROVER_return_value)) && \
+    (__CPROVER_old(g_eval_n) == 0 ==> RECEIVER_TUPLE_INV((struct Tuple *)__CPROVER_return_value->_value.p))))
+#ifndef RECEIVER_TUPLE_INV
+#define RECEIVER_TUPLE_INV(t) 1
+#endif
 #else
 #define ENS_PAYLOAD_TUPLE
 #endif
